@@ -486,6 +486,50 @@ def check_curpos(ck, prog):
     ck.floor("C13-CURPOS", 3)
 
 
+def check_iterstate(ck, prog):
+    """The iterator remembers its position as (method, group, record) and is documented to stay valid while Blocks are
+    appended.  "The Stream has no Record group yet" (nothing returned for this Stream) and "Record 0 of the only group was
+    returned" are different positions: iter_set_info() has to store different `method` values for them, otherwise after
+    an append to a Stream that was empty lzma_index_iter_next() treats the first new Block as already returned and skips
+    it (with one Block: reports the end although a Block was never visited)."""
+    ck.rule("C13-ITERSTATE", "iter_set_info encodes 'no group yet' with a method value that no other position uses")
+    f = prog.fn("iter_set_info", "index.c")
+    ck.saw_function(f)
+    gs = guard.find_cmp(f, "var:group", "const:0")
+    if not gs:
+        raise AnalysisBroken("iter_set_info: test `group == NULL` not found")
+    doms = cfg.dominators(f)
+
+    def stores_under(root):
+        out = []
+        for b, i, e in f.iter_elems():
+            if b.id == root or root in doms.get(b.id, ()):
+                for (l, r, op, n) in ex.writes(e):
+                    if "ITER_METHOD" in ex.show(l) or (ex.strip(l).get("k") == "mem" and "internal" in ex.show(l) and
+                                                        ex.const_val(ex.strip(ex.strip(l).get("b") or {}).get("i")) == 4):
+                        out.append((ex.const_val(r), n))
+        return out
+    a = o = None
+    for g_ in gs:
+        tb = f.blocks[g_.bid]
+        idx = {"T": 0, "F": 1}[g_.pass_label]
+        null_succ, other_succ = tb.succs[idx], tb.succs[1 - idx]
+        a_, o_ = stores_under(null_succ), stores_under(other_succ)
+        if a_ and o_:
+            a, o = a_, o_
+    if not a or not o:
+        a, o = a or [], o or []
+        raise AnalysisBroken("iter_set_info: stores to internal[ITER_METHOD] not found in both branches (%d / %d)" % (len(a), len(o)))
+    clash = [n for (v, n) in o if v in {x for (x, _n) in a}]
+    ck.ob("C13-ITERSTATE", "empty-stream-method", not clash, common.where(f, clash[0] if clash else a[0][1]),
+          "iter_set_info: method %s only for a Stream without groups; other positions use %s" % (
+              sorted({x for (x, _n) in a}), sorted({x for (x, _n) in o})) if not clash else
+          "iter_set_info(): the position 'this Stream has no Record group' is stored with the same method value (%s) as 'Record 0 "
+          "of the only group was returned' (line %s): after lzma_index_append() adds the first Block to that Stream, "
+          "lzma_index_iter_next() believes it was already returned and skips it" % (a[0][0], ex.line(clash[0])),
+          key="ITERSTATE:empty-stream-method")
+
+
 def check_seek_state(ck, prog):
     """file_info_decode() is re-entered after LZMA_SEEK_NEEDED in whatever state coder->sequence names.  A state body that
     moves the file position bookkeeping (compound update of a coder member) must therefore advance coder->sequence
@@ -545,6 +589,7 @@ def run(ck):
     check_seek_state(ck, prog)
     check_treewalk(ck, prog)
     check_curpos(ck, prog)
+    check_iterstate(ck, prog)
     from . import reinit
     ck.rule("C13-APPLY", "an amount measured in this call (padding found, bytes used) is applied to the persistent "
                          "member it updates on every way out that the caller continues from")
